@@ -20,6 +20,7 @@ Sources (all from the scratch build = $VERIF_REPO's working tree, with the build
        top = <anything else>                  ITopUnknown
        stack[top + k] = e                     <items of e>; IStore k      (the calls inside e run BEFORE the store)
        stack[top++] = e  (_PUSH)              <items of e>; IStore 0; ITop 1
+       f(.., stack[top + k], ..), f allocating  IArg k   (before the ICall: the slot's value is handed to a callee that allocates)
        f(...) with f in the may-allocate set  ICall "f"
        if / ?: / && / ||                      IIf a b       (either branch)
        nested switch                          IBlock [IIf ...]  (a break inside leaves the block)
@@ -300,7 +301,21 @@ class Walker:
             for a in args:
                 its += self.expr(a)
             c = strip(callee)
-            if c.get("kind") == "DeclRefExpr" and c.get("referencedDecl", {}).get("kind") == "FunctionDecl":
+            direct = c.get("kind") == "DeclRefExpr" and c.get("referencedDecl", {}).get("kind") == "FunctionDecl"
+            if not direct or c["referencedDecl"]["name"] in self.alloc:
+                # the callee allocates before it stores its arguments: a stack slot passed by value must be one the marker scans
+                for a in args:
+                    sa = strip(a)
+                    if sa.get("kind") == "ArraySubscriptExpr" and is_var(sa["inner"][0], "stack"):
+                        k = top_plus(sa["inner"][1])
+                        if k is None:
+                            bt = below_top(sa["inner"][1])
+                            if bt is not None and bt <= -1:
+                                k = -1
+                                self.assumptions.append("in stack[top - <variable> - c] the variable part is non-negative (the slot lies below the local top)")
+                        if k is not None:
+                            its.append(("arg", k))
+            if direct:
                 name = c["referencedDecl"]["name"]
                 if name in self.alloc:
                     its.append(("call", name))
@@ -556,6 +571,9 @@ def run_items(items, st, bad):
             nhi = hi + 1 if it[1] == hi else hi
             nfe = fe if it[2] else fmax(fe, it[1] + 1)
             st = (rel, nhi, max(wp, nhi + rel) if isinstance(rel, int) else wp, nfe)
+        elif k == "arg":
+            if not ((isinstance(rel, int) and it[1] + rel < 0) or (rel == LE and it[1] < 0)):
+                bad.append(("(argument stack[top%+d])" % it[1], "lost-arg", st))
         elif k == "call":
             if not safe_rel(rel):
                 bad.append((it[1], "lost", st))
@@ -604,6 +622,8 @@ def check_segment(items):
 def why_text(b):
     callee, why, st = b
     rel, hi, wp, fe = st
+    if why == "lost-arg":
+        return "%s of the next allocating call is a stack slot at or above the published top (relation of local and published top: %s): the callee allocates before it stores the argument, a collection there does not scan the slot (LOST root)" % (callee, rel)
     if why == "lost-store":
         return "%s is reached while a slot into which this opcode stored a heap value (neither an immediate nor a registered local) lies at or above the published top (fresh end - local top <= %s, local top %s published top): a collection there does not scan it (LOST root)" % (
             callee, fe, ("= %+d +" % rel) if isinstance(rel, int) else "<=")
@@ -642,6 +662,8 @@ def coq_items(items):
             out.append("ILoop (%s)" % coq_items(it[1]))
         elif k == "store":
             out.append("IStore (%d) %s" % (it[1], "true" if it[2] else "false"))
+        elif k == "arg":
+            out.append("IArg (%d)" % it[1])
         elif k == "block":
             out.append("IBlock (%s)" % coq_items(it[1]))
         elif k == "stop":
